@@ -148,6 +148,21 @@ def run_big(case, ctx):
                 r = check_bracket(ctx, X, Y, truth2, res, {"order": oname, "answers": "default"})
                 if r and X is A and oname == "default":
                     ctx.outcome(("big", r))
+                    # on a fixed cover of the larger pairs: every single deviation from the default draws
+                    if max(len(X), len(Y)) <= 5 and (case["i"] * 31 + case["j"]) % (5 if ctx.tier == "quick" else 1) == 0:
+                        NX, NY = np.array(X), np.array(Y)
+
+                        def run(ch):
+                            _seam.start_run(ch)
+                            ctx.trans()
+                            return gromov_hausdorff(NX, NY)
+
+                        nruns = 0
+                        for prefix, tr, res2 in explore(run, 1):
+                            nruns += 1
+                            check_bracket(ctx, X, Y, truth2, res2, {"order": "default", "answers": [t[2] for t in tr]})
+                        ctx.count("schedules_executed", nruns)
+                        ctx.nontriv("larger_pair_with_deviation_bound_1_schedules")
                     if r[0] >= 1.0:
                         ctx.nontriv("lower_bound_of_2_or_more_halves_proved")
                     elif r[0] < r[1]:
